@@ -26,7 +26,9 @@ def BIOMOL():
 
 
 ROW = DictOf(("res_name", Named("row_res", Str)), ("res_num", Named("row_num", Int)), ("ins_code", Const(" ")), ("chain_id", Named("row_ch", Str)),
-             ("pKa", Named("row_pka", Real)), ("group_label", Named("row_label", Str)))
+             ("pKa", Named("row_pka", Real)), ("group_label", Named("row_label", Str)),
+             # (the remaining keys run_propka fills in: a change that reads them is judged, not stopped by a KeyError)
+             ("group_type", Named("row_type", Str)), ("model_pKa", Real), ("buried", Real), ("coupled_group", Const(None)))
 
 TRACE = {
     "pdb2pqr.forcefield:Forcefield": Obj("pdb2pqr.forcefield:Forcefield", name=Str),
@@ -342,15 +344,23 @@ contract(
 # "NAME NUMBER CHAIN" with that row's own pKa; rows of other groups (ligand atoms, coupled groups) are not titrated.
 # Terminal groups are labelled by GROUP ("N+    1 A", "C-   99 B") and carry their residue's name; apply_pka_values looks
 # them up by exactly that label (proved in titration.py) - so they have to arrive under it (contract .termini below).
-def PROW(res, num, ch, pka, label):
+def PROW(res, num, ch, pka, label, gtype=None):
+    # group_type as PROPKA reports it: the residue type for side chains, "N+" for the N-terminus and "COO" (the same as
+    # ASP/GLU) for the C-terminus
     return DictOf(("res_name", Const(res)), ("res_num", Const(num)), ("ins_code", Const(" ")), ("chain_id", Const(ch)), ("pKa", Const(pka)),
-                  ("group_label", Const(label)))
+                  ("group_label", Const(label)), ("group_type", Const(gtype or label[0:3].strip())), ("model_pKa", Const(pka)),
+                  ("buried", Const(0.0)), ("coupled_group", Const(None)))
 
 
 PKA_TRACE = dict(TRACE)
 PKA_TRACE["pdb2pqr.main:run_propka"] = TupleOf(Items(PROW("ASP", 12, "A", 3.5, "ASP  12 A"), PROW("SER", 1, "A", 8.0, "N+    1 A"),
                                                      PROW("LYS", 7, "B", 10.5, "LYS   7 B"), PROW("ASP", 40, "A", 4.5, "XXX  40 A"),
-                                                     PROW("LEU", 99, "B", 3.25, "C-   99 B")), Str)
+                                                     PROW("LEU", 99, "B", 3.25, "C-   99 B", "COO"),
+                                                     # a titratable residue that ends its chain: two groups, two rows
+                                                     PROW("HIS", 209, "B", 6.5, "HIS 209 B"),
+                                                     PROW("HIS", 209, "B", 3.25, "C-  209 B", "COO"),
+                                                     PROW("LYS", 1, "C", 7.75, "N+    1 C"),
+                                                     PROW("LYS", 1, "C", 10.5, "LYS   1 C")), Str)
 
 contract(
     "pdb2pqr.main:non_trivial", ["C06"],
@@ -361,6 +371,9 @@ contract(
         "len(calls_of('apply_pka_values')) == 1",
         "calls_of('apply_pka_values')[0].args['pkadic']['ASP 12 A'] == Fraction(7, 2)",
         "calls_of('apply_pka_values')[0].args['pkadic']['LYS 7 B'] == Fraction(21, 2)",
+        # ... also where the residue carries a terminal group as well: the side chain is judged by ITS OWN pKa
+        "calls_of('apply_pka_values')[0].args['pkadic']['HIS 209 B'] == Fraction(13, 2)",
+        "calls_of('apply_pka_values')[0].args['pkadic']['LYS 1 C'] == Fraction(21, 2)",
         "'ASP 40 A' not in calls_of('apply_pka_values')[0].args['pkadic']",
         # a terminal group's pKa is never filed under its residue's side chain
         "'SER 1 A' not in calls_of('apply_pka_values')[0].args['pkadic'] and 'LEU 99 B' not in calls_of('apply_pka_values')[0].args['pkadic']",
@@ -405,7 +418,8 @@ def ASPRES(nm, ins):
 
 def PROWI(res, num, ins, ch, pka, label):
     return DictOf(("res_name", Const(res)), ("res_num", Const(num)), ("ins_code", Const(ins)), ("chain_id", Const(ch)),
-                  ("pKa", pka), ("group_label", Const(label)))
+                  ("pKa", pka), ("group_label", Const(label)), ("group_type", Const(label[0:3].strip())), ("model_pKa", Real),
+                  ("buried", Real), ("coupled_group", Const(None)))
 
 
 SEAM_TRACE = dict(TRACE)
